@@ -306,7 +306,8 @@ def gen_c(rng, tier):
             ops.append({'op': 'advance', 'dt': rng.choice([0, 1, 1, 2, 100, -1, -50])})
     if not any(o['op'] == 'compile' for o in ops):
         ops.append({'op': 'compile', 'names': [names[-1]], 'options': {}})
-    return {'layer': 'c', 'modules': specs, 'ops': ops, 'src_skew': rng.choice([0, 0, 0, 1, -1, 300, -300]), 'listing_seed': rng.randrange(1 << 30)}
+    return {'layer': 'c', 'modules': specs, 'ops': ops, 'src_skew': rng.choice([0, 0, 0, 1, -1, 300, -300]), 'listing_seed': rng.randrange(1 << 30),
+            'persistent': rng.random() < 0.5}
 
 
 def run_c(scn):
@@ -337,6 +338,7 @@ def run_c(scn):
                 os.utime(os.path.join(src, n), (t_src0, t_src0))
                 src_m[n] = t_src0
         dst_m = {}
+        persistent = None
         w = core.World(root=root, clock=core.EPOCH0, listing_seed=scn.get('listing_seed'))
         core.patch_pysmi()
         sig = []
@@ -350,9 +352,14 @@ def run_c(scn):
                         os.utime(os.path.join(src, op['name']), (w.now, w.now))
                     src_m[op['name']] = w.now
                 else:
-                    comp = MibCompiler(cs.get_parser(), cs.new_codegen('json'), FileWriter(dst).setOptions(suffix='.json'))
-                    comp.addSources(FileReader(src))
-                    comp.addSearchers(AnyFileSearcher(dst).setOptions(exts=['.json']))
+                    if persistent is None or not scn.get('persistent'):
+                        # a long-lived compiler (one searcher/reader/writer object for the whole history) in
+                        # 'persistent' worlds, a fresh set of objects per call otherwise
+                        comp = MibCompiler(cs.get_parser(), cs.new_codegen('json'), FileWriter(dst).setOptions(suffix='.json'))
+                        comp.addSources(FileReader(src))
+                        comp.addSearchers(AnyFileSearcher(dst).setOptions(exts=['.json']))
+                        persistent = comp
+                    comp = persistent
                     before = core.snapshot(dst)
                     try:
                         R = comp.compile(*op['names'], **op['options'])
@@ -395,7 +402,7 @@ def run_c(scn):
                         sig.append((expect, 'eq' if n in dst_m and dst_m[n] == src_m[n] else ''))
                 w.end_op()
         fp, fph = w.fingerprints(extra=sorted(core.snapshot(dst, with_mtime=True, scrub=root).items()))
-        return {'violations': viol, 'sig': json.dumps(['c', [o['op'] for o in scn['ops']], sorted(set(sig)), scn.get('src_skew')]),
+        return {'violations': viol, 'sig': json.dumps(['c', [o['op'] for o in scn['ops']], sorted(set(sig)), scn.get('src_skew'), bool(scn.get('persistent'))]),
                 'nontrivial': True, 'events': len(w.log), 'sim_s': abs(w.simulated_seconds()) + sum(abs(o.get('dt', 0)) for o in scn['ops']), 'fired': {},
                 'probes': {'layer-c': 1, 'c-equal-mtime-case': 1 if any(s[1] == 'eq' for s in sig) else 0},
                 'fp': fp, 'fph': fph, 'comps': {'compile(real reader/writer/searcher)': sum(1 for o in scn['ops'] if o['op'] == 'compile')}}
@@ -489,6 +496,10 @@ def shrink(scn):
         if scn.get('src_skew'):
             s = copy.deepcopy(scn)
             s['src_skew'] = 0
+            yield s
+        if scn.get('persistent'):
+            s = copy.deepcopy(scn)
+            s['persistent'] = False
             yield s
 
 
